@@ -164,6 +164,72 @@ Theorem extended_exactly_balanced_accepted : forall ord cp r payee st ps,
 Proof. exact extended_balanced_accepted. Qed.
 Print Assumptions extended_exactly_balanced_accepted.
 
+(* the re-check runs exactly when SOME generated posting must balance - a matching posting and
+   a real or [balanced] line anywhere in the rule - not when the last generated one must *)
+Theorem recheck_iff_some_line_must_balance : forall cp st r payee ps,
+  existsb x_must_balance (contribution cp st r payee ps) = true <->
+  (candidates r payee ps <> [] /\ exists l, In l (r_lines r) /\ rl_kind l <> PVirtual).
+Proof. exact needs_verify_iff. Qed.
+Print Assumptions recheck_iff_some_line_must_balance.
+
+(* accepted => the postings that must balance, original and generated, sum to zero at display
+   precision: the tested balance is their exact per-commodity sum and displays as zero *)
+Theorem extended_accepted_sums_to_display_zero : forall ord cp r payee st ps ps',
+  extend_pure ord cp r payee st ps = Ok ps' ->
+  existsb x_must_balance (contribution cp st r payee ps) = true ->
+  exists bal nul, scan_posts ord (map x_post ps') 0 VVoid None = Ok (bal, nul) /\
+                  v_is_zero cp bal = true /\ forall c, den bal c == bsum (map x_post ps') c.
+Proof. exact extended_accepted_displays_zero. Qed.
+Print Assumptions extended_accepted_sums_to_display_zero.
+
+(* the order of the rule's lines changes neither whether the re-check runs nor the sums it tests *)
+Theorem line_order_recheck_free : forall cp st r r' payee ps,
+  same_but_line_order r r' ->
+  existsb x_must_balance (contribution cp st r payee ps) = existsb x_must_balance (contribution cp st r' payee ps) /\
+  forall c, bsum (map x_post (ps ++ contribution cp st r payee ps)) c ==
+            bsum (map x_post (ps ++ contribution cp st r' payee ps)) c.
+Proof. exact line_order_verify_free. Qed.
+Print Assumptions line_order_recheck_free.
+
+(* ... nor acceptance: off by a whole unit is rejected in every order of the lines (also with a
+   (virtual) line last), exactly balanced is accepted in every order *)
+Theorem line_order_unbalanced_rejected : forall ord cp r r' payee st ps c,
+  let ext := map x_post (ps ++ contribution cp st r payee ps) in
+  same_but_line_order r r' ->
+  (forall k, 0 <= cp k <= 230)%Z ->
+  (exists new, gen_pure cp r payee st ps = Ok new) -> (exists new, gen_pure cp r' payee st ps = Ok new) ->
+  existsb x_must_balance (contribution cp st r payee ps) = true ->
+  (count_nulls ext <= 1)%nat -> existsb same_comm_cost ext = false ->
+  1 <= Qabs (bsum ext c) ->
+  extend_pure ord cp r payee st ps = Err EUnbalanced /\ extend_pure ord cp r' payee st ps = Err EUnbalanced.
+Proof. exact AutoXactProofs.line_order_unbalanced_rejected. Qed.
+Print Assumptions line_order_unbalanced_rejected.
+
+Theorem line_order_balanced_accepted : forall ord cp r r' payee st ps,
+  let ext := map x_post (ps ++ contribution cp st r payee ps) in
+  same_but_line_order r r' ->
+  (exists new, gen_pure cp r payee st ps = Ok new) -> (exists new, gen_pure cp r' payee st ps = Ok new) ->
+  (count_nulls ext <= 1)%nat -> existsb same_comm_cost ext = false ->
+  (forall c, bsum ext c == 0) ->
+  extend_pure ord cp r payee st ps = Ok (ps ++ contribution cp st r payee ps) /\
+  extend_pure ord cp r' payee st ps = Ok (ps ++ contribution cp st r' payee ps).
+Proof. exact AutoXactProofs.line_order_balanced_accepted. Qed.
+Print Assumptions line_order_balanced_accepted.
+
+(* the seeded shape: `Liabilities:Tax 0.10` then `(Budget) -1` (unbalanced real line, virtual line
+   last) is rejected exactly like the same lines in the other order *)
+Example virtual_line_last_still_rejected :
+  let eur := Some [69; 85; 82]%Z in
+  let m (x : Q) (p : Z) := mkAmt x p false None in
+  let tax := mkLine [84%Z] PReal (Some (m (1 # 10) 2%Z)) SUncleared in
+  let bud := mkLine [66%Z] PVirtual (Some (m (-1) 2%Z)) SUncleared in
+  let t := mkTxn [120; 49]%Z SUncleared
+                 [mkPost [69; 120; 112]%Z PReal (Some (mkAmt 100 2%Z false eur)) None None false false false;
+                  mkPost [67%Z] PReal (Some (mkAmt (-100) 2%Z false eur)) None None false false false] in
+  process false [] [] [DRule (mkRule (PAcct [69; 120]%Z) [tax; bud]); DTxn t] = [Err EUnbalanced] /\
+  process false [] [] [DRule (mkRule (PAcct [69; 120]%Z) [bud; tax]); DTxn t] = [Err EUnbalanced].
+Proof. cbv zeta. split; vm_compute; reflexivity. Qed.
+
 Theorem virtual_lines_never_checked : forall ord cp r payee st ps new,
   gen_pure cp r payee st ps = Ok new -> existsb x_must_balance new = false ->
   extend_pure ord cp r payee st ps = Ok (ps ++ new).
